@@ -54,6 +54,9 @@ func init() {
 			ro.dequeueLoop(r, map[string]bool{"timer-gate": true})
 			ro.expiryHandler(r, "expiry")
 			ro.timerUseGuarded(r, "timer-use")
+			// a queued job whose timer is not pending (expired, or never armed) starts as soon as a slot is free — whatever delay the
+			// current definition states: the dequeue asks the admission question with the delay ignored for exactly those jobs
+			ro.dequeueIndependent(r, "dequeue-independent-of-new-definition")
 			ro.canceledSites(r, "canceled-site")
 			ro.slotEnd(r, "slot-end")
 			// a waiting (delayed) job is never removed by retention: the expiry handler looks the job up by id
@@ -90,6 +93,7 @@ func init() {
 			retentionTable(w, r)
 			r.Floor("table.retention", 1)
 			ro.orderRules(r, "order")
+			checkJobTimesFromClock(w, r)
 			r.Floor("schedulable", 5)
 			r.Floor("running", 4)
 			r.Floor("accept.registered", 1)
